@@ -10,32 +10,42 @@ fn main() {
     let base = PathBuf::from(std::env::args().nth(1).expect("scratch dir")).join("c21");
     let _ = std::fs::remove_dir_all(&base);
     let mut tried = 0;
-    for n in [1usize, 3, 20] {
+    let all = std::env::var("WALRUS_REPLAY_ALL").is_ok();
+    let mut any = false;
+    // sizes of the records of one history: small ones, and one history with a record above 1 MiB (the reader's byte budget
+    // must never make a whole record unreadable)
+    let histories: Vec<(&str, Vec<usize>)> = vec![("1_small", vec![20]), ("3_small", vec![20, 21, 22]), ("20_small", (0..20).map(|i| 20 + i % 7).collect()),
+                                                   ("small_large_small", vec![5, 1_572_864, 4]), ("four_900KiB", vec![921_600; 4])];
+    for (hname, sizes) in histories.iter() {
         for restarts in [1usize, 2, 3] {
             tried += 1;
-            let dir = base.join(format!("n{}r{}", n, restarts));
+            let n = sizes.len();
+            let dir = base.join(format!("{}_r{}", hname, restarts));
             std::fs::create_dir_all(&dir).unwrap();
             let path = dir.join("raft_log.wal");
-            let recs: Vec<Vec<u8>> = (0..n).map(|i| format!("record-{:04}-{}", i, "x".repeat(i % 7)).into_bytes()).collect();
+            let recs: Vec<Vec<u8>> = sizes.iter().enumerate().map(|(i, sz)| (0..*sz).map(|j| ((i * 31 + j * 7) % 251) as u8).collect()).collect();
             {
                 let wal = block_on(WriteAheadLog::new(path.clone(), 0, Duration::from_millis(0))).expect("open");
                 for r in &recs { block_on(wal.append(Bytes::from(r.clone()))).expect("append"); }
             }
-            let mut bad: Option<String> = None;
+            let mut bad: Option<(usize, String)> = None;
             for k in 1..=restarts {
                 let wal = block_on(WriteAheadLog::new(path.clone(), 0, Duration::from_millis(0))).expect("reopen");
                 let got = block_on(wal.read_all()).expect("read_all");
                 let same = got.len() == recs.len() && got.iter().zip(recs.iter()).all(|(a, b)| a.as_ref() == b.as_slice());
-                if !same { bad = Some(format!("restart #{}: read_all returned {} of the {} acknowledged records", k, got.len(), recs.len())); break; }
+                if !same { bad = Some((k, format!("restart #{}: read_all returned {} of the {} acknowledged records", k, got.len(), recs.len()))); break; }
             }
             let _ = std::fs::remove_dir_all(&dir);
-            if let Some(f) = bad {
-                println!("{{\"found\":true,\"scenario\":\"append_{}_then_{}_restarts\",\"history\":\"WriteAheadLog::new; {} x append (each returned Ok); then {} x (drop, WriteAheadLog::new, read_all) as WalLogStore::new does at every start\",\"failure\":\"{}\",\"tried\":{}}}", n, restarts, n, restarts, f, tried);
-                let _ = std::fs::remove_dir_all(&base);
-                return;
+            if let Some((k, f)) = bad {
+                any = true;
+                // the scenario name says at which restart the records were first missing: the listed known finding is "second or later"
+                let when = if k == 1 { "first_restart" } else { "later_restart" };
+                println!("{{\"found\":true,\"scenario\":\"{}_{}_of_{}\",\"history\":\"WriteAheadLog::new; {} x append (each returned Ok; sizes {:?}); then {} x (drop, WriteAheadLog::new, read_all) as WalLogStore::new does at every start\",\"failure\":\"{}\",\"tried\":{}}}", when, hname, restarts, n, &sizes[..sizes.len().min(4)], restarts, f, tried);
+                if !all { let _ = std::fs::remove_dir_all(&base); return; }
             }
         }
     }
+    if any { let _ = std::fs::remove_dir_all(&base); return; }
     let _ = std::fs::remove_dir_all(&base);
     println!("{{\"found\":false,\"tried\":{}}}", tried);
 }
